@@ -33,36 +33,47 @@ def selectors(run, repo, world):
             continue
         if not fn.args.args or fn.args.args[0].arg != "addr":
             continue
-        # structure: if isinstance(addr, GearAddress): return G(..)
-        #            elif isinstance(addr, DeviceAddress): return D(..)
-        #            else: raise
+        # outcome per address family, on the path summaries of the
+        # normalised selector (a helper choosing the command module, a
+        # table of (class, module) pairs, an if chain or a match all give
+        # the same paths)
+        from . import paths as _paths
+        nf = normalise(fn, world, LOC, None, aliases=False)
+        try:
+            ps = _paths.summaries(nf)
+        except _paths.Unsupported as e:
+            raise AnalysisError("R-MEM-SIB: selector %s is not loop-free "
+                                "after normalisation: %s" % (name, e))
         branches = {}
         has_raise = False
-        node = fn.body[-1] if fn.body else None
-        cur = None
-        for s in fn.body:
-            if isinstance(s, ast.If):
-                cur = s
-        ok_shape = cur is not None
-        chain = cur
-        while chain is not None:
-            t = chain.test
-            fam = None
-            if isinstance(t, ast.Call) and unparse(t.func) == "isinstance" \
-                    and unparse(t.args[0]) == "addr":
-                k = world.resolve_class(LOC, t.args[1])
-                fam = k.qname if k else None
-            ret = [s for s in chain.body if isinstance(s, ast.Return)]
-            if fam and ret and isinstance(ret[0].value, ast.Call):
-                k2 = world.resolve_class(LOC, ret[0].value.func)
-                branches[fam] = (k2, ret[0].value)
-            if len(chain.orelse) == 1 and isinstance(chain.orelse[0],
-                                                     ast.If):
-                chain = chain.orelse[0]
-            else:
-                has_raise = any(isinstance(s, ast.Raise)
-                                for s in chain.orelse)
-                chain = None
+        ok_shape = True
+        for p_ in ps:
+            fams = []
+            for (t, b_) in p_.conds:
+                if isinstance(t, ast.Call) and unparse(
+                        t.func) == "isinstance" and len(
+                            t.args) == 2 and unparse(t.args[0]) == "addr":
+                    elts = t.args[1].elts if isinstance(
+                        t.args[1], ast.Tuple) else [t.args[1]]
+                    ks = [world.resolve_class(LOC, e_) for e_ in elts]
+                    fams.append(([k.qname if k else None for k in ks], b_))
+                else:
+                    ok_shape = False
+            pos = [f_ for (fs, b_) in fams if b_ for f_ in fs]
+            if p_.kind == "raise":
+                if not pos:
+                    has_raise = True
+                else:
+                    ok_shape = False
+                continue
+            if p_.kind != "return" or not isinstance(p_.expr, ast.Call) \
+                    or len(pos) != 1:
+                ok_shape = False
+                continue
+            k2 = world.resolve_class(LOC, p_.expr.func)
+            if pos[0] in branches and (branches[pos[0]][0] is not k2):
+                ok_shape = False
+            branches[pos[0]] = (k2, p_.expr)
         g = branches.get("dali.address.GearAddress")
         d = branches.get("dali.address.DeviceAddress")
         ok = ok_shape and g is not None and d is not None and has_raise \
